@@ -178,12 +178,20 @@ def content_family(chk):
     # directories and files whose NAMES look special to path helpers (kept as they are: whatever order the file system lists them in)
     for cat in dl.CATS:
         pats = [p for p, _ in dl.CATS[cat]['patterns']][:2]
-        for dname in ('snapshots.t.sol', '.deps', 'T.SOL', 'a.sol', 'sp ace', 'ünï'):
+        for dname in ('snapshots.t.sol', '.deps', 'T.SOL', 'a.sol', 'sp ace', 'ünï', 'lib\\v1', '~x', '%41$'):
             for fname in ('In.sol', '.sol', '.Vault.sol'):
                 ents = [('dir', dname, [('file', fname, 'in'), ('dir', 'deep', [('file', 'Low.sol', 'low')])]), ('file', 'A.sol', 'a')]
                 tags = {f[2]: [names[cat][p] for p in pats] for f in all_files(ents)}
                 native_check(chk, cat, ents, pats, names[cat], '%s eligible files below a directory called %r (file %r)' % (cat, dname, fname), tags)
                 chk.ok()
+    # directories that only GROUP other directories (no file of their own), two and three levels deep
+    for cat in dl.CATS:
+        pats = [p for p, _ in dl.CATS[cat]['patterns']][:2]
+        ents = [('dir', 'v2', [('dir', 'core', [('file', 'Pool.sol', 'p')]), ('dir', 'periphery', [('dir', 'lens', [('file', 'Quoter.sol', 'q')]), ('file', 'notes.txt', 'n')])]),
+                ('dir', 'docs', [('dir', 'img', [])]), ('file', 'A.sol', 'a')]
+        tags = {f[2]: [names[cat][p] for p in pats] for f in all_files(ents)}
+        native_check(chk, cat, ents, pats, names[cat], '%s directories that only hold directories' % cat, tags)
+        chk.ok()
     # files that are NOT eligible by their name although they hold Solidity text with findings (another letter case of the suffix, a suffix
     # behind the suffix, no dot, a test contract): nothing of them may appear in the result, in any category
     for cat in dl.CATS:
